@@ -469,6 +469,20 @@ def histories_for(ctx):
     return hs + ex + rnd
 
 
+def node_is_ghost(ctx):
+    """`Slot.node` (identity of a list node) must stay a ghost: Model.lean may mention it only in the
+    structure declaration and where `connect` creates a slot; no function of the model may read it"""
+    import re
+    src = C.strip_comments((C.LEAN / "Nstd/Callback/Model.lean").read_text())
+    uses = [l.strip() for l in src.splitlines() if re.search(r"(?<![A-Za-z])node(?![A-Za-z])", l)]
+    allowed = [r"^node : Nat$", r"node := st\.nextNode,"]
+    bad = [l for l in uses if not any(re.search(a, l) for a in allowed)]
+    if bad or len(uses) != 2:
+        ctx.broken.append("Model.lean reads the ghost field Slot.node: " + " | ".join(bad or uses)[:300])
+        return False
+    return True
+
+
 def check(ctx):
     ctx.assumptions += [
         "single-threaded use of Callback (the class has no synchronisation)",
@@ -476,6 +490,7 @@ def check(ctx):
         "slot bodies are deterministic scripts of connect/disconnect/emit/delete actions; allocation never fails",
     ]
     proof_ok = C.proof_stage(ctx, PROPS, [DRIVER], leanchecker=(ctx.tier == "thorough"))
+    proof_ok = node_is_ghost(ctx) and proof_ok
     harness = C.build_harness(ctx, "callback", SOURCES)
     if harness is None or not C.driver_path(DRIVER).exists():
         return
